@@ -65,9 +65,9 @@ func c20Tweak(t *rapid.T, w *sim.World, rare bool) int {
 }
 
 type c20Vote struct {
-	cand     int // index into genesis candidates
-	proposal int // 1 = A, 2 = B
-	block    int // offset from the first block
+	cand     int    // index into genesis candidates
+	proposal int    // 1 = A, 2 = B
+	block    int    // offset from the first block
 	kind     string // "vote", "dup", "past"
 	accepted bool
 }
